@@ -484,6 +484,11 @@ func (p *pager) sqliteCheckpoint(restart bool, truncate bool) bool {
 	for _, pg := range sortedKeys(m) {
 		p.do(fmt.Sprintf("dbw %d %s", p.off(pg), p.tok[pg-1]))
 	}
+	// a complete checkpoint ends with sqlite3OsTruncate(dbFd, nPage*pageSize) (walCheckpoint): a
+	// database that shrank in the WAL is cut to its committed size before the log can restart
+	if len(p.img) > 0 {
+		p.do(fmt.Sprintf("dbt %d", int64(len(p.img))*int64(p.ps)))
+	}
 	p.do(fmt.Sprintf("unlock %d CKPT", o))
 	if restart {
 		p.walInit = false // next writer rewrites the header with new salts
